@@ -1021,6 +1021,59 @@ def retype_gen(tier):
     return gen
 
 
+# bloc_ctx_store_variable: a refused store leaves the caller's value as it was; storing a value the library owns (a variable's) copies it
+STORE_SETUP = '$sk = "s"; $ik = 1; t = tab(2, 1); s2 = "text"; x2 = raw("xy"); r2 = tup(1, "a"); c2 = 1 + 2 * ii; u = 0; w = 0;'
+STORE_SRC = {"T": "t.count()", "S2": "strlen(s2)", "X2": "x2.count()", "R2": "r2@2", "C2": "(c2 == 1 + 2 * ii)"}
+STORE_WANT = {"T": "2", "S2": "4", "X2": "2", "R2": "a", "C2": "TRUE"}
+
+
+def storecontract_gen(tier):
+    def gen():
+        n = 0
+        # (a) caller-owned values of every dynamic kind into constrained variables of another type
+        for vspec, vname in (("s" + b"hello".hex(), "string"), ("x" + b"ab".hex(), "bytes"), ("c1.5,-2", "complex")):
+            for target in ("$SK", "$IK"):
+                if vname == "string" and target == "$SK":
+                    continue
+                ops = ["k.create 0", "k.pexe 0 0 %s 0" % hx(STORE_SETUP), "k.exec 0", "k.freeexe 0", "k.new 0 %s" % vspec, "k.find 0 0 %s" % target,
+                       "k.store 0 0 0", "k.inspect v 0", "k.find 0 1 U", "k.store 0 1 0", "k.pexe 0 0 %s 0" % hx("print typeof(u) typeof(%s);" % target.lower()), "k.exec 0", "k.out 0",
+                       "k.end", "leakcheck"]
+                yield Case("sc%d" % n, ops, {"kind": "storecontract", "what": "refused", "value": vname, "target": target, "spec": vspec})
+                n += 1
+        # (b) library-owned values (what a variable holds) into another variable, accepted and refused: the source keeps its value
+        for src in STORE_SRC:
+            for target in ("U", "$IK", "$SK"):
+                probe = "print %s;" % STORE_SRC[src]
+                ops = ["k.create 0", "k.pexe 0 0 %s 0" % hx(STORE_SETUP), "k.exec 0", "k.freeexe 0", "k.find 0 0 %s" % src, "k.load 0 0 1", "k.find 0 1 %s" % target,
+                       "k.storelib 0 1 1", "k.pexe 0 0 %s 0" % hx(probe), "k.exec 0", "k.out 0", "k.end", "leakcheck"]
+                yield Case("sc%d" % n, ops, {"kind": "storecontract", "what": "library-owned", "value": src, "target": target})
+                n += 1
+    return gen
+
+
+def check_storecontract(case, res, vs):
+    m = case.meta
+    st = res["steps"]
+    if m["what"] == "refused":
+        stored, insp = st[6], st[7]
+        if stored.get("ret") != 0:
+            vs.append(Violation("store-contract:constrained-variable-accepted", "a %s was stored into %s: %s" % (m["value"], m["target"], stored), case))
+        caller = insp.get("val", {})
+        if caller.get("isnull") != 0:
+            vs.append(Violation("store-contract:refused-store-emptied-the-value", "storing a %s into %s was refused (ret %s) and the caller's value is now %s" % (
+                m["value"], m["target"], stored.get("ret"), caller.get("dump")), case))
+        if st[9].get("ret") != 1:
+            vs.append(Violation("store-contract:later-store-failed", "the same value could not be stored into U afterwards: %s" % st[9], case))
+    else:
+        out = unhex(st[10].get("out", "")).decode("latin-1") if st[10].get("r") == "ok" else None
+        if st[8].get("ptr") != 1 or st[9].get("ret") != 1 or out != STORE_WANT[m["value"]] + "\n":
+            vs.append(Violation("store-contract:source-variable-changed", "after storing the value of %s into %s (ret %s) the script reading %s gives parse %s run %s output %r, expected %r" % (
+                m["value"], m["target"], st[7].get("ret"), m["value"], st[8].get("ptr"), st[9].get("ret"), out, STORE_WANT[m["value"]]), case))
+    if st[-1].get("leak") not in (0, None):
+        vs.append(Violation("store-contract:leak", "memory remains allocated: %s" % st[-1].get("report", "")[:600], case))
+    return vs, True
+
+
 def check_retype(case, res, vs):
     m = case.meta
     st = res["steps"]
@@ -1043,6 +1096,8 @@ def check(case, res):
     st = res["steps"]
     if m["kind"] == "retype":
         return check_retype(case, res, vs)
+    if m["kind"] == "storecontract":
+        return check_storecontract(case, res, vs)
     if m["kind"] == "leak":
         vs = [v for v in vs if v.key != "leak"]      # reported below with the allocating site
         if st[4].get("ptr") == 1:
@@ -1171,6 +1226,7 @@ def run(tier):
     t0 = time.time()
     res = explore(PROP + "-" + tier, gen_factory(tier), check, chunk=100, deadline=t0 + (3000 if tier == "thorough" else 420))
     res.merge(explore(PROP + "-" + tier + "-retype", retype_gen(tier), check, chunk=50, deadline=t0 + 3300))
+    res.merge(explore(PROP + "-" + tier + "-store-contract", storecontract_gen(tier), check, chunk=20, deadline=t0 + 3300))
     rule = ("call sequences over %d operations (value creation of every type incl. NULL payloads, store/load, assign, inspection by every typed accessor, "
             "parse of %d valid and %d invalid texts with and without position request, execute / execute2 in a clone, drop_returned, break / reset_stop, "
             "parse / type / evaluate of %d expressions, clone, free, purge, purge_working_mem, register, find): all sequences of length <=2, %s; "
